@@ -105,11 +105,14 @@ def wrap(pos, f, val, absent):
     return {"t": inner}
 
 
-def part_b(ck, tier):
+def part_b(ck, tier, selftest=False):
     res = vlib.run_tlc("MC_C16b", "MC_C16b_%s.cfg" % tier, timeout=600)
     ck.add_tlc(res)
     vlib.tlc_must_pass(res)
     cases = res["cases"]["CASE"]
+    if selftest:
+        c = next(x for x in cases if x["verdict"] == "ok" and x["kind"] == "leaf")
+        c["verdict"] = "reject"
     workdir = os.path.join(vlib.WORK, "c16")
     jobs, meta, names, spath = build_modules(cases, workdir)
     results, _ = vlib.gqlv("gen", jobs)
@@ -195,7 +198,7 @@ def main(tier, replay=None, selftest=False):
     ck = Check(PROP, tier)
     vlib.build_harness()
     part_a(ck)
-    part_b(ck, tier)
+    part_b(ck, tier, selftest)
     ck.assumptions += ["integers outside the signed 64-bit range are not covered (the property speaks of 64-bit signed integers)",
                        "list depth <= 2 (quick) / 3 (thorough); positions: plain field, flattened fragment, union variant"]
     return ck.finish(exhaustive=True, rule="(a) every value class x 2 helpers x 2 routes; (b) every ID type expression up to the depth bound x "
